@@ -185,7 +185,10 @@ impl Directive {
             Directive::Org => {
                 if let DirectiveOps::OpList(values) = opts {
                     if let Operand::E(expr) = &values[0] {
-                        let value = expr.run(&context.common_context)?;
+                        let value = match expr.run(&context.common_context) {
+                            Ok(value) => value,
+                            Err(e) => bail!("{} in {}", e, point),
+                        };
                         if !context.last_segment().unwrap().borrow().is_empty() {
                             let current_type = context.last_segment().unwrap().borrow().t;
                             context.add_segment(Segment::new(current_type));
@@ -303,7 +306,10 @@ impl Directive {
             Directive::If | Directive::ElIf => {
                 if let DirectiveOps::OpList(values) = &opts {
                     if let Operand::E(expr) = &values[0] {
-                        let value = expr.run(&context.common_context)?;
+                        let value = match expr.run(&context.common_context) {
+                            Ok(value) => value,
+                            Err(e) => bail!("{} in {}", e, point),
+                        };
                         if value == 0 {
                             next_item = NextItem::EndIf;
                         }
